@@ -85,6 +85,8 @@ def products(cx, kind="mvonly", shape="sq", ba=(), bx=(), complex_=False, herm_c
         mats = [cx.sym("a%d" % i, (ba if i == 0 else ba2) + (p, q), complex_=complex_) for i in range(nmats(kind))]
     if kind in SQUARE_ONLY:
         mats = [(mats[0] + _H(mats[0])) * 0.5]
+    if kind.startswith("matmul_herm"):
+        mats = [(mt + _H(mt)) * 0.5 for mt in mats]
     if kind in AUTODETECT and p == q:
         if herm_case == "exact":
             mats[0] = (mats[0] + _H(mats[0])) * 0.5
@@ -255,6 +257,9 @@ def configs(tier):
             add("products/%s/sq/complex/nonHermitian" % kind, products, kind=kind, shape="sq", complex_=True, herm_case="clear")
         else:
             add("products/%s/sq/complex" % kind, products, kind=kind, shape="sq", complex_=True)
+    for kind in ("matmul_herm", "matmul_herm_dense"):
+        add("products/%s/sq/real" % kind, products, kind=kind, shape="sq")
+        add("products/%s/sq/complex" % kind, products, kind=kind, shape="sq", complex_=True)
     for kind in ("mvonly", "mvrmv", "dense", "add", "mul", "matmul", "adjoint", "herm"):
         add("products/%s/sq/batchA2_x1" % kind, products, kind=kind, shape="sq", ba=(2,), bx=(1,))
         add("products/%s/sq/batchA_x2" % kind, products, kind=kind, shape="sq", ba=(), bx=(2,))
